@@ -51,3 +51,6 @@ CLAIMS = {
  "C20": c(PBT + ": round-trip for all CBOR/bc32 length classes and BCUR chunkings; rejection catalogue (permutation, omission, foreign part, substituted character)",
           "BCUR single/multi-part encodings reassemble exactly for payloads to 70000 bytes and chunk sizes 1..2000; out-of-order, missing, foreign or corrupted parts are rejected and never yield different data."),
 }
+
+# properties whose check is finished, reviewed by the lead and quiet on the unchanged tree
+READY = ["C01", "C02", "C03", "C04", "C05"]
